@@ -514,6 +514,9 @@ def execute(w, lab, fault=None):
             w.m.unregister(w.taskid(lab["t"]))
         elif a == "RegisterTask":
             w.m.register(w.make_task(lab["t"]))
+        elif a == "Load":
+            # the entries as text, as dump() would print them (C11: the printed forms are faithful)
+            w.m.load([(str(w.ref(l_)), str(w.build_expr(e_))) for l_, e_ in lab["sq"]], overwrite=bool(lab["ow"]))
         elif a == "Freeze":
             w.m.freeze_tree()
         elif a == "Unfreeze":
